@@ -4912,7 +4912,11 @@ class DecRoAffine(RoAffine):
                     rvecs.loc[i, index] = arg.values.loc[i].ravel()
 
         raffine_values = self.raffine()
-        affine_values = self.affine()
+        affine_values = self.affine(*args) if isinstance(self.affine, DecAffine) else self.affine()
+        if isinstance(affine_values, pd.Series) and not isinstance(raffine_values, pd.Series):
+            raffine_values = pd.Series([raffine_values] * nscen, index=rvecs.index)
+        elif isinstance(raffine_values, pd.Series) and not isinstance(affine_values, pd.Series):
+            affine_values = pd.Series([affine_values] * nscen, index=rvecs.index)
 
         if isinstance(raffine_values, pd.Series) or sw:
             output = []
